@@ -335,103 +335,131 @@ func ruleScanIndexGuarded(r *Run) {
 		}
 		n++
 		key := fmt.Sprintf("%s/byte-read#%d", shortFunc(g), n)
-		inRange := func(f guardFact) bool {
-			x, y, op, ok := f.cmp()
-			if !ok {
+		var judge func(sl ssa.Value, blk *ssa.BasicBlock, edge *guardFact, depth int) bool
+		judge = func(sl ssa.Value, blk *ssa.BasicBlock, edge *guardFact, depth int) bool {
+			inRange := func(f guardFact) bool {
+				x, y, op, ok := f.cmp()
+				if !ok {
+					return false
+				}
+				isLen := func(v ssa.Value) bool {
+					c, ok := v.(*ssa.Call)
+					return ok && calleeName(c) == "builtin.len" && len(c.Call.Args) == 1 && (c.Call.Args[0] == sl || p.sameValue(c.Call.Args[0], sl))
+				}
+				if x == ia.Index && isLen(y) && op == token.LSS {
+					return true
+				}
+				if y == ia.Index && isLen(x) && op == token.GTR {
+					return true
+				}
 				return false
 			}
-			isLen := func(v ssa.Value) bool {
-				c, ok := v.(*ssa.Call)
-				return ok && calleeName(c) == "builtin.len" && len(c.Call.Args) == 1 && (c.Call.Args[0] == ia.X || p.sameValue(c.Call.Args[0], ia.X))
+			established := p.guardedInEveryContext(blk, inRange)
+			if edge != nil && inRange(*edge) {
+				established = true
 			}
-			if x == ia.Index && isLen(y) && op == token.LSS {
-				return true
+			if !established {
+				// the refill is a helper's job (buf, err = readThrough(buf, r, pos); if err != nil { return }): the slice
+				// read is the helper's result, used only where its error is nil, and the helper returns a nil error only
+				// where its index parameter is below the length of the slice it returns
+				for _, o := range p.origins(sl, originOpts{local: true}) {
+					ex, ok := o.(*ssa.Extract)
+					if !ok {
+						continue
+					}
+					hc, ok := ex.Tuple.(*ssa.Call)
+					if !ok || hc.Call.IsInvoke() {
+						continue
+					}
+					h := hc.Call.StaticCallee()
+					if h == nil || !p.InModule(h) || len(h.Blocks) == 0 {
+						continue
+					}
+					pi := -1
+					for i, a := range hc.Call.Args {
+						if a == ia.Index {
+							pi = i
+						}
+					}
+					hei := errResultIndex(h)
+					if pi < 0 || pi >= len(h.Params) || hei < 0 {
+						continue
+					}
+					// used only where the helper's error is nil
+					var herr ssa.Value
+					if hc.Referrers() != nil {
+						for _, ref := range *hc.Referrers() {
+							if e2, ok := ref.(*ssa.Extract); ok && e2.Index == hei {
+								herr = e2
+							}
+						}
+					}
+					errNil := func(f guardFact) bool {
+						x, y, op, ok := f.cmp()
+						return ok && op == token.EQL && ((x == herr && isNilConst(y)) || (y == herr && isNilConst(x)))
+					}
+					if herr == nil || !(p.guardedInEveryContext(blk, errNil) || (edge != nil && errNil(*edge))) {
+						continue
+					}
+					all, some := true, false
+					eachInstr(h, func(x ssa.Instruction) {
+						rt, ok := x.(*ssa.Return)
+						if !ok || ex.Index >= len(rt.Results) {
+							return
+						}
+						nilable := false
+						for _, eo := range p.origins(rt.Results[hei], originOpts{local: true}) {
+							if isNilConst(eo) {
+								nilable = true
+							}
+						}
+						if !nilable {
+							return
+						}
+						some = true
+						ret := rt.Results[ex.Index]
+						post := func(f guardFact) bool {
+							x, y, op, ok := f.cmp()
+							if !ok {
+								return false
+							}
+							isLen := func(v ssa.Value) bool {
+								c, ok := v.(*ssa.Call)
+								return ok && calleeName(c) == "builtin.len" && len(c.Call.Args) == 1 && (c.Call.Args[0] == ret || p.sameValue(c.Call.Args[0], ret))
+							}
+							return (x == ssa.Value(h.Params[pi]) && isLen(y) && op == token.LSS) || (y == ssa.Value(h.Params[pi]) && isLen(x) && op == token.GTR)
+						}
+						if !p.guardedOnAllPathsOpt(rt.Block(), post, 0, false) {
+							all = false
+						}
+					})
+					if all && some {
+						established = true
+					}
+				}
 			}
-			if y == ia.Index && isLen(x) && op == token.GTR {
-				return true
+
+			if established || depth > 2 {
+				return established
+			}
+			// the slice is a choice between values (refilled only when needed): each alternative is judged where it
+			// comes from, with the fact of the edge it arrives on
+			if phi, ok := sl.(*ssa.Phi); ok {
+				for k, e := range phi.Edges {
+					pred := phi.Block().Preds[k]
+					var ef *guardFact
+					if ifi := blockIf(pred); ifi != nil && len(pred.Succs) == 2 && pred.Succs[0] != pred.Succs[1] {
+						ef = &guardFact{Cond: ifi.Cond, True: pred.Succs[0] == phi.Block(), If: ifi}
+					}
+					if !judge(e, pred, ef, depth+1) {
+						return false
+					}
+				}
+				return len(phi.Edges) > 0
 			}
 			return false
 		}
-		established := p.guardedInEveryContext(in.Block(), inRange)
-		if !established {
-			// the refill is a helper's job (buf, err = readThrough(buf, r, pos); if err != nil { return }): the slice
-			// read is the helper's result, used only where its error is nil, and the helper returns a nil error only
-			// where its index parameter is below the length of the slice it returns
-			for _, o := range p.origins(ia.X, originOpts{local: true}) {
-				ex, ok := o.(*ssa.Extract)
-				if !ok {
-					continue
-				}
-				hc, ok := ex.Tuple.(*ssa.Call)
-				if !ok || hc.Call.IsInvoke() {
-					continue
-				}
-				h := hc.Call.StaticCallee()
-				if h == nil || !p.InModule(h) || len(h.Blocks) == 0 {
-					continue
-				}
-				pi := -1
-				for i, a := range hc.Call.Args {
-					if a == ia.Index {
-						pi = i
-					}
-				}
-				hei := errResultIndex(h)
-				if pi < 0 || pi >= len(h.Params) || hei < 0 {
-					continue
-				}
-				// used only where the helper's error is nil
-				var herr ssa.Value
-				if hc.Referrers() != nil {
-					for _, ref := range *hc.Referrers() {
-						if e2, ok := ref.(*ssa.Extract); ok && e2.Index == hei {
-							herr = e2
-						}
-					}
-				}
-				if herr == nil || !p.guardedInEveryContext(in.Block(), func(f guardFact) bool {
-					x, y, op, ok := f.cmp()
-					return ok && op == token.EQL && ((x == herr && isNilConst(y)) || (y == herr && isNilConst(x)))
-				}) {
-					continue
-				}
-				all, some := true, false
-				eachInstr(h, func(x ssa.Instruction) {
-					rt, ok := x.(*ssa.Return)
-					if !ok || ex.Index >= len(rt.Results) {
-						return
-					}
-					nilable := false
-					for _, eo := range p.origins(rt.Results[hei], originOpts{local: true}) {
-						if isNilConst(eo) {
-							nilable = true
-						}
-					}
-					if !nilable {
-						return
-					}
-					some = true
-					ret := rt.Results[ex.Index]
-					post := func(f guardFact) bool {
-						x, y, op, ok := f.cmp()
-						if !ok {
-							return false
-						}
-						isLen := func(v ssa.Value) bool {
-							c, ok := v.(*ssa.Call)
-							return ok && calleeName(c) == "builtin.len" && len(c.Call.Args) == 1 && (c.Call.Args[0] == ret || p.sameValue(c.Call.Args[0], ret))
-						}
-						return (x == ssa.Value(h.Params[pi]) && isLen(y) && op == token.LSS) || (y == ssa.Value(h.Params[pi]) && isLen(x) && op == token.GTR)
-					}
-					if !p.guardedOnAllPathsOpt(rt.Block(), post, 0, false) {
-						all = false
-					}
-				})
-				if all && some {
-					established = true
-				}
-			}
-		}
+		established := judge(ia.X, in.Block(), nil, 0)
 		r.check(established, key, in.Pos(), "read only where the index is below the length of that slice, on every path",
 			"the byte is read on a path on which the index was not found below the length of the slice after the last refill (a single Read instead of a loop: a reader returning 0, nil leaves the index at len(b) and the read panics)")
 	})
